@@ -245,7 +245,11 @@ func (n *Node) signal(sig os.Signal, allowOverride bool) {
 	n.mu.Lock()
 	defer n.mu.Unlock()
 	status := n.data.State.Status
-	if status == NodeStatusRunning && n.cmd != nil {
+	// A step that has been told to stop is marked canceled right away, but
+	// its process lives on until it exits: the signals that follow (the
+	// resend, the final SIGKILL) must still reach it.
+	stopping := status == NodeStatusCancel && n.data.State.FinishedAt.IsZero()
+	if (status == NodeStatusRunning || stopping) && n.cmd != nil {
 		sigsig := sig
 		if allowOverride && n.data.Step.SignalOnStop != "" {
 			sigsig = unix.SignalNum(n.data.Step.SignalOnStop)
